@@ -17,8 +17,8 @@ EXTENDS Foreign, Json, IOUtils
 
 Trace == ndJsonDeserialize(IOEnv.WZ_OBS)
 
-VARIABLES l, cur, oo, prev, wit
-tvars == <<l, cur, oo, prev, wit>>
+VARIABLES l, cur, oo, prev, ptoks, wit
+tvars == <<l, cur, oo, prev, ptoks, wit>>
 
 ModelOf(p) == [parts |-> SetOf(p.parts), rels |-> SetOf(p.rels), body |-> p.body,
                ns |-> p.ns, pkgns |-> p.pkgns, hlink |-> p.hlink]
@@ -40,15 +40,24 @@ Mach(m, o) ==
 Raw(s, o, e) ==
   IF e.sv # "ok" THEN {<<"INFO", e.sv>>}
   ELSE Viol_C04(o, s, ObsOf(e.pkg))
-       \cup (IF e.np # Len(s.paras) THEN {<<"INFO", "paragraph-count">>} ELSE {})
+
+\* The library's choice in RemoveParagraphAt, read off the observation: the paragraph whose tokens
+\* disappeared with this step (0 = none, also when the call returned false). If what disappeared does not
+\* fit into one paragraph nothing is excused and every token lost is reported.
+Removed(s, e) ==
+  LET gone == (ExpToks(s) \cap ptoks) \ SetOf(e.pkg.toks)
+      cand == {k \in 1..Len(s.paras) : gone \subseteq s.paras[k]}
+  IN IF e.ret # "true" \/ e.sv # "ok" \/ gone = {} \/ cand = {} THEN 0
+     ELSE CHOOSE k \in cand : \A j \in cand : k <= j
+ChoiceOf(s, e) == IF e.op.op = "RemoveParagraphAt" THEN [NoChoice EXCEPT !.rm = Removed(s, e)] ELSE NoChoice
 
 \* a witness is attributed to the operation after which it first shows in its behaviour
 Sigs(raw, old, name) == {(IF w[1] = "INFO" THEN <<"INFO", name, w[2]>> ELSE <<"C04", name>> \o w) : w \in raw \ old}
 
-TInit == l = 1 /\ cur = Closed /\ oo = NoObs /\ prev = {} /\ wit = {}
+TInit == l = 1 /\ cur = Closed /\ oo = NoObs /\ prev = {} /\ ptoks = {} /\ wit = {}
 
 TReset == /\ l <= Len(Trace) /\ Trace[l].ev = "reset"
-          /\ cur' = Closed /\ oo' = NoObs /\ prev' = {} /\ wit' = wit /\ l' = l + 1
+          /\ cur' = Closed /\ oo' = NoObs /\ prev' = {} /\ ptoks' = {} /\ wit' = wit /\ l' = l + 1
 
 TStep == /\ l <= Len(Trace) /\ Trace[l].ev = "step"
          /\ LET e == Trace[l] IN
@@ -57,17 +66,17 @@ TStep == /\ l <= Len(Trace) /\ Trace[l].ev = "step"
                        s == InitOf(m)
                        o == ObsOf(e.orig)
                        raw == Raw(s, o, e)
-                   IN /\ cur' = s /\ oo' = o /\ prev' = raw
+                   IN /\ cur' = s /\ oo' = o /\ prev' = raw /\ ptoks' = SetOf(e.pkg.toks)
                       /\ wit' = AddWit(wit, Mach(m, o) \cup Sigs(raw, {}, "Open"), e.case)
-              ELSE LET s == Apply(cur, e.op, NoChoice)
+              ELSE LET s == Apply(cur, e.op, ChoiceOf(cur, e))
                        raw == Raw(s, oo, e)
-                   IN /\ cur' = s /\ oo' = oo /\ prev' = raw
+                   IN /\ cur' = s /\ oo' = oo /\ prev' = raw /\ ptoks' = SetOf(e.pkg.toks)
                       /\ wit' = AddWit(wit, Sigs(raw, prev, e.op.op), e.case)
          /\ l' = l + 1
 
 TDone == /\ l = Len(Trace) + 1
          /\ PrintT(<<"WZDONE", l - 1, ToJson(wit)>>)
-         /\ l' = l + 1 /\ UNCHANGED <<cur, oo, prev, wit>>
+         /\ l' = l + 1 /\ UNCHANGED <<cur, oo, prev, ptoks, wit>>
 
 TNext == TReset \/ TStep \/ TDone
 TSpec == TInit /\ [][TNext]_tvars
